@@ -209,6 +209,17 @@ int get_tmp_fd(zckCtx *zck) {
         set_error(zck, "Unable to create temporary file");
         return -1;
     }
+    /* A temp_fd of 0 means "no temporary file" everywhere else, so if stdin is
+     * closed and we were handed descriptor 0, move the file to another one */
+    if(temp_fd == 0) {
+        temp_fd = dup(0);
+        close(0);
+        if(temp_fd < 0) {
+            free(fname);
+            set_error(zck, "Unable to create temporary file");
+            return -1;
+        }
+    }
 #ifndef _WIN32
     // Files with open file handle cannot be removed on Windows
     if(unlink(fname) < 0) {
